@@ -17,6 +17,14 @@ the target, exactly one clf.exchange() is performed while the station and the fa
 Verdict (property statement): the call returns bytes/None or raises an nfc.clf.CommunicationError subclass or
 OSError/IOError.  Finer, where unambiguous: silence -> TimeoutError, RFOFF -> BrokenLinkError, a well-formed answer is
 returned unchanged.  Anything else escaping -> udp/escape/<exception@function>/<injection>.
+What is raised is judged by its concrete type (nfc.clf.TimeoutError / TransmissionError / ProtocolError / BrokenLinkError /
+CommunicationError, builtin OSError classes): a driver-internal class derived from one of them is an escape too.
+Socket clause: where a socket call of the driver itself raised OSError (the harness injected it: the "host link" of this
+driver failed, nothing was wrong on the simulated air) the only documented report is IOError/OSError.
+Follow-up: after the judged exchange a regular one (fresh well-formed answer, nothing left in the socket queue) must
+return exactly that answer.  Time-outs: 0.1 s, 1 us, 0, None, with and without send data.
+Activation: the real clf.sense()/clf.listen() with the n-th datagram of the activation replaced by short / surplus /
+malformed ones: target | None | nfc.clf.Error subclass | OSError.
 """
 import errno
 import socket as _socket
@@ -27,10 +35,20 @@ RULE_C13 = ("cells = target kind (7 remote: T1T, T2T, T4A, DEP target at 106A, 1
             "tta->tt2_cmd, tta->tt4_cmd, ttb, ttf, DEP at 106A after anticollision / direct, 212F after SENSF / direct, "
             "424F direct, 106A with PSL to 424F after anticollision / direct) x injection (30 datagram shapes, 15 socket faults, random datagrams) x "
             "{alone, behind a skipped datagram} x time-out {0.1, 0, None} x {answer provoked by the driver's datagram, "
-            "already queued}; a cell is distinct by (kind, injected bytes / fault, time-out, position) and non-trivial "
-            "if the frontend held the target and exchange() was entered")
+            "already queued}; plus receive-only calls (send data None) in both roles, a one microsecond time-out, and after "
+            "every cell a regular follow-up exchange with a fresh well-formed answer; activation cells = kind x n-th datagram "
+            "of the real sense()/listen() x {every truncation (also with consistent length octet), surplus, other "
+            "parameter octets, the malformed datagram classes}; a cell is distinct by (kind, injected bytes / fault, "
+            "time-out, position) and non-trivial if the frontend held the target and exchange() was entered (activation: "
+            "the replaced datagram was really sent)")
 REQUIRED_C13 = ["udp_exchanges", "udp_kinds_activated", "udp_malformed_datagrams", "udp_socket_faults",
-                "udp_outcome_data", "udp_outcome_comm_error", "udp_outcome_oserror", "udp_random_datagrams"]
+                "udp_outcome_data", "udp_outcome_comm_error", "udp_outcome_oserror", "udp_random_datagrams",
+                "udp_concrete_type_checked", "udp_socket_clause_checked", "udp_socket_clause_sendto_checked",
+                "udp_socket_clause_select_checked", "udp_socket_clause_recvfrom_checked",
+                "udp_follow_up_checked", "udp_follow_up_after_comm_error", "udp_follow_up_after_data",
+                "udp_timeout_tiny_cells", "udp_timeout_zero_cells", "udp_timeout_none_cells", "udp_receive_only_cells",
+                "udp_activation_cells", "udp_activation_sense_cells", "udp_activation_listen_cells",
+                "udp_activation_injected", "udp_activation_outcome_found", "udp_activation_outcome_none"]
 ASSUMPTIONS = ["udp: vf.sim.fakenet reproduces the socket/select behaviour the driver relies on (datagram truncation to "
                "the receive buffer, OSError from socket calls, ValueError for a negative select time-out)",
                "udp: the scripted station follows the activation sequences of nfc.clf.udp's own sense_*/listen_* "
@@ -88,6 +106,10 @@ class Station(object):
         self.seen = []
         self.script = []            # listen kinds: datagrams the station sends, one per step
         self.step = 0
+        self.act_inject = None      # (n, datagrams): the station's n-th datagram of the activation is replaced
+        self.act_injected = False
+        self.answers = []           # the station's regular datagrams during activation, in order
+        self.n_out = 0
         if kind in REMOTE_KINDS:
             self.sock = net.add_responder(DRV, self.on_datagram)
         else:
@@ -98,6 +120,8 @@ class Station(object):
     # -- remote card / DEP target ------------------------------------------------------------------
     def card_answer(self, brty, p):
         k = self.kind
+        if k == "tt1" and brty == "106A" and p[:1] in (b"\x93", b"\x95", b"\x97"):
+            return None                     # a Type 1 Tag does not take part in the anticollision
         if k in ("tt1", "tt2", "tt4a", "dep106") and brty == "106A":
             uid = bytes.fromhex("04a1b2c3d4e5f6")
             if p == b"\x26":
@@ -142,10 +166,20 @@ class Station(object):
                                          _dg("424F", _len(dep_req))],
         }[kind]
 
+    def _out(self, dgs):
+        """the station's next activation datagram(s): regular or replaced"""
+        self.n_out += 1
+        self.answers.append([bytes(d) for d in dgs])
+        if self.act_inject is not None and self.act_inject[0] == self.n_out:
+            self.act_injected = True
+            return [bytes(d) for d in self.act_inject[1]]
+        return dgs
+
     def on_bind(self, sock, addr):
         if sock is not self.sock and self.mode == "activate" and self.step == 0 and self.script:
             self.step = 1
-            self.sock.sendto(self.script[0], DRV)
+            for d in self._out([self.script[0]]):
+                self.sock.sendto(d, DRV)
 
     def on_datagram(self, data, src, sock):
         self.drv_addr = src
@@ -158,10 +192,10 @@ class Station(object):
         if self.kind in REMOTE_KINDS:
             brty, p = _parse(data)
             a = self.card_answer(brty, p) if brty else None
-            return [brty.encode() + b" " + a.encode()] if a is not None else ()
+            return self._out([brty.encode() + b" " + a.encode()]) if a is not None else ()
         if self.step < len(self.script):
             self.step += 1
-            return [self.script[self.step - 1]]
+            return self._out([self.script[self.step - 1]])
         return ()
 
 
@@ -183,20 +217,31 @@ def target_for(kind):
     return t
 
 
-def activate(net, kind):
-    """-> (clf, station, brty used for the exchange, valid payload the station may send) or raises SetupError"""
+def enter(net, kind, act_inject=None):
+    """the real clf.sense() / clf.listen() against the station -> (clf, station, call); call() performs it and
+    returns the target or None (exceptions propagate; the caller closes clf)"""
     import nfc.clf
     from vf.sim import fakenet
     st = Station(net, kind)
+    st.act_inject = act_inject
     clf = fakenet.make_clf(net, "udp:localhost:%d" % PORT)
     if kind in REMOTE_KINDS:
         brty = {"ttb": "106B", "ttf212": "212F", "ttf424": "424F"}.get(kind, "106A")
-        tg = clf.sense(nfc.clf.RemoteTarget(brty))
+        return clf, st, lambda: clf.sense(nfc.clf.RemoteTarget(brty))
+    return clf, st, lambda: clf.listen(target_for(kind), 1.0)
+
+
+def activate(net, kind):
+    """-> (clf, station, brty used for the exchange, valid payload the station may send) or raises SetupError"""
+    clf, st, call = enter(net, kind)
+    if kind in REMOTE_KINDS:
+        brty = {"ttb": "106B", "ttf212": "212F", "ttf424": "424F"}.get(kind, "106A")
+        tg = call()
         if tg is None:
             clf.close()
             raise SetupError("sense() found nothing for %s; station saw %r" % (kind, st.seen))
     else:
-        tg = clf.listen(target_for(kind), 1.0)
+        tg = call()
         if tg is None or st.step < len(st.script):
             clf.close()
             raise SetupError("listen() returned %s for %s after %d/%d script steps" % (tg, kind, st.step, len(st.script)))
@@ -214,6 +259,19 @@ class SetupError(Exception):
 
 # ------------------------------------------------------------------------------------------ injections
 VALID = bytes.fromhex("0102030405aabbcc")
+VALID2 = bytes.fromhex("1112131415ddeeff99")      # the answer of the follow-up exchange
+
+
+def public_exception_type(exc):
+    """True if the concrete type of an exception that left clf.exchange()/sense()/listen() is one of the documented
+    public classes (same rule as vf.drivers.pn53x_family.public_exception_type): nfc.clf.CommunicationError and its four
+    documented kinds, nfc.clf.UnsupportedTargetError, or a builtin OSError class."""
+    import nfc.clf
+    t = type(exc)
+    if t in (nfc.clf.CommunicationError, nfc.clf.TimeoutError, nfc.clf.TransmissionError, nfc.clf.ProtocolError,
+             nfc.clf.BrokenLinkError, nfc.clf.UnsupportedTargetError):
+        return True
+    return issubclass(t, OSError) and t.__module__ == "builtins"
 
 
 def datagram_injections(brty):
@@ -348,16 +406,23 @@ def exec_case(case):
             net.sock_fault = sock_fault
         send = case.get("send")
         try:
-            v = clf.exchange(None if send is None else bytearray(send), case["timeout"])
-            out["outcome"], out["value"] = "returned", v
-        except Exception as e:
-            out["exc"] = e
-            if isinstance(e, nfc.clf.CommunicationError):
-                out["outcome"] = "comm:" + type(e).__name__
-            elif isinstance(e, OSError):
-                out["outcome"] = "oserror"
-            else:
-                out["outcome"] = "escape"
+            try:
+                v = clf.exchange(None if send is None else bytearray(send), case["timeout"])
+                out["outcome"], out["value"] = "returned", v
+            except BaseException as e:
+                out["exc"] = e
+                out["outcome"] = _classify(nfc, e)
+            if case.get("follow") and not net.aborted:
+                # a regular exchange afterwards: a fresh well-formed answer, provoked by the driver's datagram
+                net.sock_fault = None
+                sock = getattr(clf.device, "socket", None)
+                out["leftover"] = len(sock.queue) if sock is not None and hasattr(sock, "queue") else None
+                st.inject = [_dg(brty, VALID2)]
+                fsend = bytes.fromhex("d50700bb") if case["kind"] in LISTEN_KINDS else bytes.fromhex("3005")
+                try:
+                    out["follow"] = ("returned", clf.exchange(bytearray(fsend), 0.1), None)
+                except BaseException as e:
+                    out["follow"] = (_classify(nfc, e), None, e)
         finally:
             net.sock_fault = None
             out["frames"] = net.n_frames
@@ -368,6 +433,14 @@ def exec_case(case):
             except Exception:
                 pass
     return out
+
+
+def _classify(nfc, e):
+    if isinstance(e, nfc.clf.CommunicationError):
+        return "comm:" + type(e).__name__ if public_exception_type(e) else "internal"
+    if isinstance(e, OSError):
+        return "oserror" if public_exception_type(e) else "internal"
+    return "escape"
 
 
 def judge(case, out, R):
@@ -396,6 +469,23 @@ def judge(case, out, R):
     e = out["exc"]
     cls = case.get("cls", name)
     role = "listen" if kind in LISTEN_KINDS else "remote"
+    t = case["timeout"]
+    if t is None:
+        R.count("udp_timeout_none_cells")
+    elif t == 0:
+        R.count("udp_timeout_zero_cells")
+    elif 0 < t < 0.001:
+        R.count("udp_timeout_tiny_cells")
+    if case.get("send") is None:
+        R.count("udp_receive_only_cells")
+    if e is not None and out["outcome"] != "escape":
+        R.count("udp_concrete_type_checked")
+    if out["outcome"] == "internal":
+        R.count("udp_outcome_internal_type")
+        R.violation("udp/internal-type/%s/%s" % (_xsig(e), cls),
+                    "clf.exchange() raised the driver-internal %s.%s (derived from a documented class) (%s, injection %s)" % (
+                        type(e).__module__, type(e).__name__, kind, name), case)
+        return
     if out["outcome"] == "escape":
         R.count("udp_outcome_escape")
         xs = _xsig(e)
@@ -415,6 +505,30 @@ def judge(case, out, R):
         R.count("udp_outcome_oserror")
     else:
         R.count("udp_outcome_comm_error")
+    fault = case.get("fault")
+    if fault and out.get("fault_fired") and ("errno" in fault or fault.get("timeout")):
+        # a socket call of the driver itself raised OSError: the "host link" of this driver failed
+        R.count("udp_socket_clause_checked")
+        R.count("udp_socket_clause_%s_checked" % fault["op"])
+        if out["outcome"] != "oserror":
+            R.violation("udp/socket-clause/%s/%s->%s" % (cls, role, out["outcome"]),
+                        "the socket call %s() raised OSError (%s) but exchange() reported %s instead of IOError/OSError" % (
+                            fault["op"], cls, out["outcome"]), case)
+    fo = out.get("follow")
+    if fo is not None:
+        first = out["outcome"].split(":")[0]
+        R.seen("udp_follow_up_outcomes", "%s after %s -> %s%s" % (role, out["outcome"], fo[0], " (leftover)" if out.get("leftover") else ""))
+        if fo[0] == "escape" or fo[0] == "internal":
+            R.violation("udp/follow-up/escape/%s/%s" % (_xsig(fo[2]), role), "the exchange after %s (%s) raised %r" % (name, kind, fo[2]), case)
+        elif out.get("leftover") or cls in ("rfoff", "rfoff-suffix") or case.get("fault"):
+            R.count("udp_follow_up_observed_only")     # datagrams of the first exchange are still queued / the field is gone
+        else:
+            R.count("udp_follow_up_checked")
+            R.count("udp_follow_up_after_" + {"returned": "data", "comm": "comm_error", "oserror": "oserror"}.get(first, first))
+            if fo[0] != "returned" or bytes(fo[1] or b"") != VALID2:
+                R.violation("udp/follow-up/valid-answer/%s/after-%s->%s" % (role, first if first != "comm" else out["outcome"], fo[0]),
+                            "a regular exchange after %s (%s): the well-formed answer is not returned unchanged: %s %r" % (
+                                name, out["outcome"], fo[0], fo[1]), case)
     waits = case["timeout"] is None or case["timeout"] > 0
     if not case.get("fault") and waits:
         # finer rules where the cause is unambiguous
@@ -424,7 +538,9 @@ def judge(case, out, R):
         if cls == "rfoff" and not isinstance(e, nfc.clf.BrokenLinkError):
             R.violation("udp/wrong-report/rfoff/%s/%s" % (role, out["outcome"]),
                         "field loss (RFOFF) is reported as %s, not BrokenLinkError" % out["outcome"], case)
-        if cls == "valid":
+        if cls == "valid" and 0 < (case["timeout"] or 1) < 0.001 and isinstance(e, nfc.clf.TimeoutError):
+            R.count("udp_tiny_timeout_expired_observed")      # one microsecond may be over before the driver looks
+        elif cls == "valid":
             if out["outcome"] != "returned" or bytes(out["value"] or b"") != VALID:
                 R.violation("udp/wrong-report/valid-answer/%s/%s" % (role, out["outcome"]),
                             "a well-formed answer is not returned unchanged: %s %r" % (out["outcome"], out["value"]), case)
@@ -447,10 +563,14 @@ def cells_for(kind, rng, n_random):
                 continue                     # would (correctly) wait for ever
             for queued in (False, True):
                 cases.append({"kind": kind, "inj": name, "cls": cls, "datagrams": dgs, "timeout": tmo, "send": send,
-                              "queued": queued})
-        if listen:                           # the target keeps silence (send_data None) and waits for the next command
-            cases.append({"kind": kind, "inj": name, "cls": cls, "datagrams": dgs, "timeout": 0.1, "send": None,
-                          "queued": True})
+                              "queued": queued, "follow": True})
+        # the target keeps silence (send_data None) and waits for the next command; an initiator only listens
+        cases.append({"kind": kind, "inj": name, "cls": cls, "datagrams": dgs, "timeout": 0.1, "send": None,
+                      "queued": True, "follow": True})
+        if cls in ("valid", "silence", "rfoff", "payload-non-hex", "one-token"):
+            # a time-out of one microsecond (waits, but not measurably)
+            cases.append({"kind": kind, "inj": name, "cls": cls, "datagrams": dgs, "timeout": 1e-6, "send": send,
+                          "queued": True, "follow": True})
     for tmo in ([0, -1] if not listen else [0]):  # "do not wait"
         cases.append({"kind": kind, "inj": "ok", "cls": "valid", "datagrams": [_dg(brty, VALID)], "timeout": tmo,
                       "send": send, "queued": True})
@@ -460,13 +580,120 @@ def cells_for(kind, rng, n_random):
             f = dict(fault)
             f["at"] = at
             cases.append({"kind": kind, "inj": name + ("@2" if at == 2 else ""), "cls": name, "datagrams": dgs,
-                          "timeout": 0.1, "send": send, "queued": False, "fault": f})
+                          "timeout": 0.1, "send": send, "queued": False, "fault": f, "follow": True})
     for i in range(n_random):
         dgs = [random_datagram(rng, brty) for _ in range(rng.choice([1, 1, 2]))]
         cases.append({"kind": kind, "inj": "random-%d" % len(dgs), "cls": "random-datagram", "datagrams": dgs,
                       "timeout": 0.05, "send": send, "queued": bool(rng.randrange(2))})
     for c in cases:
         c["family"] = "udp"
+    return cases
+
+
+# ------------------------------------------------------------------------------------------ activation
+def activation_injections(regular):
+    """what replaces the station's datagram `regular` (b"<brty> <hex>") during sense()/listen()"""
+    brty, payload = _parse(regular)
+    if brty is None:
+        return
+    B = brty.encode()
+    for n in range(1, len(payload)):
+        yield "cut-%d" % n, "short-payload", [_dg(brty, payload[:n])]
+        # the same with the frame's own length octet made consistent (LEN ... / F0 LEN ...)
+        cut = bytearray(payload[:n])
+        if payload[0] == len(payload):
+            cut[0] = n
+        elif payload[0] == 0xF0 and n >= 2 and len(payload) >= 2 and payload[1] == len(payload) - 1:
+            cut[1] = n - 1
+        if bytes(cut) != payload[:n]:
+            yield "cutfix-%d" % n, "short-payload-consistent-length", [_dg(brty, cut)]
+    for n in (1, 2):
+        yield "surplus-%d" % n, "surplus-payload", [_dg(brty, payload + bytes(range(0xA5, 0xA5 + n)))]
+    for k in (3, 4):
+        if len(payload) > k:                 # framing and command code kept, every parameter octet FFh / 00h
+            yield "tail-ff-%d" % k, "other-parameters", [_dg(brty, payload[:k] + b"\xff" * (len(payload) - k))]
+            yield "tail-00-%d" % k, "other-parameters", [_dg(brty, payload[:k] + bytes(len(payload) - k))]
+    yield "zero-octet", "short-payload", [_dg(brty, b"\x00")]
+    yield "ff-octets", "other-payload", [_dg(brty, b"\xff" * len(payload))]
+    yield "zero-octets", "other-payload", [_dg(brty, bytes(len(payload)))]
+    for name, cls, dgs in datagram_injections(brty):
+        if cls in ("no-tokens", "one-token", "three-tokens", "payload-odd-hex", "payload-non-hex", "brty-non-ascii",
+                   "rfoff", "silence", "datagram-over-1024") and "after-skip" not in name:
+            yield name, cls, dgs
+    yield "malformed-then-regular", "payload-non-hex", [B + b" zz", regular]
+
+
+def exec_activation(kind, act_inject):
+    """-> dict(outcome, exc, injected, answers)"""
+    import nfc.clf
+    from vf.sim import fakenet
+    net = fakenet.FakeNet(clock="virtual", stall_limit=10.0)
+    out = {"outcome": None, "exc": None}
+    with net.installed():
+        clf, st, call = enter(net, kind, act_inject)
+        try:
+            tg = call()
+            if tg is None:
+                out["outcome"] = "none"
+            elif isinstance(tg, (nfc.clf.RemoteTarget, nfc.clf.LocalTarget)):
+                out["outcome"] = "found"
+            else:
+                out["outcome"] = "ret:" + type(tg).__name__
+        except BaseException as e:
+            out["exc"] = e
+            if isinstance(e, nfc.clf.Error):
+                out["outcome"] = ("clf:" + type(e).__name__) if public_exception_type(e) else "internal"
+            elif isinstance(e, OSError):
+                out["outcome"] = "oserror" if public_exception_type(e) else "internal"
+            else:
+                out["outcome"] = "escape"
+        finally:
+            out["injected"] = st.act_injected
+            out["answers"] = list(st.answers)
+            out["aborted"], out["deadlocks"] = net.aborted, net.deadlocks
+            try:
+                clf.close()
+            except Exception:
+                pass
+    return out
+
+
+def judge_activation(case, out, R):
+    kind = case["kind"]
+    stage = "listen" if kind in LISTEN_KINDS else "sense"
+    if out.get("aborted") or out.get("deadlocks"):
+        R.inconc("udp: fake net aborted/deadlocked in %r" % (case,))
+        return
+    R.case(["udp", "activation", kind, case["n"], case["inj"], [bytes(d).hex() for d in case["datagrams"]]],
+           nontrivial=bool(out["injected"]))
+    R.count("udp_activation_cells")
+    R.count("udp_activation_%s_cells" % stage)
+    if not out["injected"]:
+        R.count("udp_activation_not_injected")
+        return
+    R.count("udp_activation_injected")
+    R.count("udp_activation_outcome_" + out["outcome"].split(":")[0])
+    R.seen("udp_activation_outcomes", "%s %s -> %s" % (stage, case["cls"], out["outcome"]))
+    e = out["exc"]
+    if out["outcome"] == "escape":
+        R.violation("udp/escape/%s/activation:%s/%s" % (_xsig(e), stage, case["cls"]),
+                    "%s escapes clf.%s() (%s, datagram %d of the activation replaced by %s): %r" % (
+                        type(e).__name__, stage, kind, case["n"], case["inj"], e), case)
+    elif out["outcome"] == "internal":
+        R.violation("udp/internal-type/%s/activation:%s/%s" % (_xsig(e), stage, case["cls"]),
+                    "clf.%s() raised the driver-internal %s.%s" % (stage, type(e).__module__, type(e).__name__), case)
+    elif out["outcome"].startswith("ret:"):
+        R.violation("udp/return-type/%s/activation:%s" % (out["outcome"][4:], stage), "%s() returned a %s" % (stage, out["outcome"][4:]), case)
+
+
+def activation_cells(kind):
+    ref = exec_activation(kind, None)
+    if ref["outcome"] != "found" or not ref["answers"]:
+        raise SetupError("reference activation of %s gave %s" % (kind, ref["outcome"]))
+    cases = []
+    for n, regular in enumerate(ref["answers"], 1):
+        for name, cls, dgs in activation_injections(regular[0]):
+            cases.append({"family": "udp", "stage": "activation", "kind": kind, "n": n, "inj": name, "cls": cls, "datagrams": dgs})
     return cases
 
 
@@ -492,6 +719,13 @@ def run_c13(desc, R, rng):
             judge(case, out, R)
             if i < 1:
                 R.sample({"udp_case": {k: case[k] for k in ("kind", "inj", "timeout")}, "outcome": out["outcome"]})
+        try:
+            acases = activation_cells(kind)
+        except Exception as e:
+            R.inconc("udp: reference activation of %s failed: %s %r" % (kind, exc_sig(e), e))
+            continue
+        for case in acases:
+            judge_activation(case, exec_activation(kind, (case["n"], case["datagrams"])), R)
     faulthandler.cancel_dump_traceback_later()
 
 
@@ -500,6 +734,10 @@ def replay_c13(case, R):
     import sys
     faulthandler.dump_traceback_later(60, exit=True, file=sys.stderr)
     case = dict(case)
+    if case.get("stage") == "activation":
+        judge_activation(case, exec_activation(case["kind"], (case["n"], [bytes(d) for d in case["datagrams"]])), R)
+        faulthandler.cancel_dump_traceback_later()
+        return
     out = exec_case(case)
     judge(case, out, R)
     faulthandler.cancel_dump_traceback_later()
